@@ -26,6 +26,13 @@ class Obj:
         return f"<{self.label}>"
 
 
+class ClassRef:
+    """A class passed around as a value (`count(BosonOp)`)."""
+
+    def __init__(self, name: str):
+        self.name = name
+
+
 class _Continue(Exception):
     pass
 
@@ -73,6 +80,8 @@ class Model:
                 return env[e.id]
             if e.id in self.names:
                 return self.names[e.id]
+            if e.id in self.names.get("__classes__", ()):
+                return ClassRef(e.id)
             self.fail(f"name `{e.id}` is not part of the model")
         if isinstance(e, (ast.Tuple, ast.List, ast.Set)):
             out = []
@@ -171,6 +180,14 @@ class Model:
             return v
         if isinstance(e, ast.Call):
             name = call_name(e)
+            if isinstance(e.func, ast.Name) and isinstance(env.get(e.func.id), tuple) and env[e.func.id][:1] == ("__closure__",) and not e.keywords:
+                _tag, fdef, fenv = env[e.func.id]
+                params = [a.arg for a in fdef.args.args]
+                if len(e.args) != len(params):
+                    self.fail(f"call `{norm(e)[:50]}` does not fit the local function")
+                local = dict(fenv)
+                local.update(zip(params, [self.ev(a, env) for a in e.args]))
+                return self.run(fdef.body, local)
             if name in self.funcs:
                 return self.funcs[name](*[self.ev(a, env) for a in e.args], **{k.arg: self.ev(k.value, env) for k in e.keywords})
             if name == "isinstance" and len(e.args) == 2:
@@ -196,10 +213,14 @@ class Model:
                 return list(r) if e.func.attr in ("items", "keys", "values") else r
             self.fail(f"call `{norm(e)[:60]}` is not part of the model")
         if isinstance(e, ast.Attribute):
+            if e.attr in self.names.get("__classes__", ()):
+                return ClassRef(e.attr)
             self.fail(f"attribute `{norm(e)[:50]}` is not part of the model")
         self.fail(f"expression `{norm(e)[:60]}` outside the evaluator's language")
 
     def instance(self, v, cls_node, env) -> bool:
+        if isinstance(cls_node, ast.Name) and isinstance(env.get(cls_node.id), ClassRef):
+            return isinstance(v, Obj) and self._is(v.cls, env[cls_node.id].name)
         if isinstance(cls_node, ast.Starred):
             vals = self.ev(cls_node.value, env)
             return any(isinstance(v, Obj) and self._is(v.cls, c) for c in vals)
@@ -245,6 +266,8 @@ class Model:
                 self.fail(f"unpacking `{norm(target)}` does not fit the model")
             for t, v in zip(target.elts, vals):
                 self.bind(t, v, env)
+        elif isinstance(target, ast.Attribute) and dotted(target) is not None:
+            self.paths[dotted(target)] = value  # an attribute of a model object: kept by its dotted name
         elif isinstance(target, ast.Subscript):
             base = self.ev(target.value, env)
             if not isinstance(base, (dict, list)):
@@ -268,6 +291,9 @@ class Model:
             if self.budget < 0:
                 self.fail("evaluation on the model does not end")
             if isinstance(s, ast.Expr) and isinstance(s.value, ast.Constant):
+                continue
+            if isinstance(s, ast.FunctionDef) and not s.decorator_list and not (s.args.vararg or s.args.kwarg or s.args.kwonlyargs or s.args.posonlyargs):
+                env[s.name] = ("__closure__", s, env)
                 continue
             if isinstance(s, ast.Assign):
                 v = self.ev(s.value, env)
